@@ -92,6 +92,92 @@ def fam_index(tier):
         yield fn([arr, ("if", B("&&", B(">=", A, N(0)), B("<", A, N(k))), [("ret", ("[]", "r", A))], None), ("ret", N(0))], domains={"a": [-2, -1, 0, 1, 2, 3, 4]})
 
 
+def arr_decls(lang):
+    """The ways an int array of 4 elements {1,2,3,4} (or 2x3) can be declared and named.
+    -> (tag, pre items, post items, local statements, access name, writable, size)"""
+    D = []
+    if lang == "c":
+        D.append(("local", [], [], [("raw", "int r[4] = {1, 2, 3, 4};")], "r", True, 4))
+        D.append(("local-no-bound", [], [], [("raw", "int r[] = {1, 2, 3, 4};")], "r", True, 4))
+        D.append(("static-local", [], [], [("raw", "static int r[4] = {1, 2, 3, 4};")], "r", False, 4))
+        D.append(("global", [("raw", "int g@[4] = {1, 2, 3, 4};")], [], [], "g@", False, 4))
+        D.append(("global-no-bound", [("raw", "const int g@[] = {1, 2, 3, 4};")], [], [], "g@", False, 4))
+        D.append(("extern-no-bound-defined-after-use", [("raw", "extern int g@[];")], [("raw", "int g@[4] = {1, 2, 3, 4};")], [], "g@", False, 4))
+        D.append(("extern-no-bound-defined-in-other-unit", [("raw", "extern const int g@[];", "extern const int g@[]; const int g@[4] = {1, 2, 3, 4};")], [], [], "g@", False, 4))
+        D.append(("extern-bound-defined-in-other-unit", [("raw", "extern const int g@[4];", "extern const int g@[4]; const int g@[4] = {1, 2, 3, 4};")], [], [], "g@", False, 4))
+        st = ("raw", "struct S@ { int n; int m[4]; };")
+        D.append(("member-dot", [st], [], [("raw", "struct S@ s = {0, {1, 2, 3, 4}};")], "s.m", True, 4))
+        D.append(("member-arrow", [st], [], [("raw", "struct S@ s = {0, {1, 2, 3, 4}};"), ("raw", "struct S@ *p = &s;")], "p->m", True, 4))
+        D.append(("member-of-global", [st, ("raw", "static struct S@ gs@ = {0, {1, 2, 3, 4}};")], [], [], "gs@.m", False, 4))
+        D.append(("nested-member", [st, ("raw", "struct O@ { struct S@ in; };")], [], [("raw", "struct O@ o = {{0, {1, 2, 3, 4}}};")], "o.in.m", True, 4))
+        fl = ("raw", "struct F@ { int n; int m[]; };")
+        D.append(("flexible-member-malloc", [fl], [], [("raw", "struct F@ *p = malloc(sizeof(struct F@) + 4 * sizeof(int));", "struct F@ *p = (struct F@ *)malloc(sizeof(struct F@) + 4 * sizeof(int));"),
+                                                       ("raw", "if (!p) { return 0; }"), ("raw", "p->m[0] = 1; p->m[1] = 2; p->m[2] = 3; p->m[3] = 4;")], "p->m", "free", 4))
+        D.append(("malloc-pointer", [], [], [("raw", "int *p = malloc(4 * sizeof(int));", "int *p = (int *)malloc(4 * sizeof(int));"), ("raw", "if (!p) { return 0; }"),
+                                             ("raw", "p[0] = 1; p[1] = 2; p[2] = 3; p[3] = 4;")], "p", "free", 4))
+        D.append(("array-of-arrays-row1", [("raw", "static int m@[2][4] = {{1, 2, 3, 4}, {5, 6, 7, 8}};")], [], [], "m@[1]", False, 4))
+        D.append(("array-of-arrays-local", [], [], [("raw", "int m[2][4] = {{1, 2, 3, 4}, {5, 6, 7, 8}};")], "m[0]", True, 4))
+        D.append(("pointer-to-local", [], [], [("raw", "int r[4] = {1, 2, 3, 4};"), ("raw", "int *p = r;")], "p", True, 4))
+        D.append(("pointer-into-array", [], [], [("raw", "int r[6] = {0, 1, 2, 3, 4, 0};"), ("raw", "int *p = &r[1];")], "p", True, 4))
+    else:
+        D.append(("namespace-extern-no-bound", [("raw", "namespace cfg@ { extern const int table[]; }",
+                                                 "namespace cfg@ { extern const int table[]; } const int cfg@::table[4] = {1, 2, 3, 4};")], [], [], "cfg@::table", False, 4))
+        D.append(("namespace-extern-no-bound-defined-after-use", [("raw", "namespace cfg@ { extern const int table[]; }")],
+                  [("raw", "const int cfg@::table[4] = {1, 2, 3, 4};")], [], "cfg@::table", False, 4))
+        D.append(("namespace-bound", [("raw", "namespace cfg@ { const int table[4] = {1, 2, 3, 4}; }")], [], [], "cfg@::table", False, 4))
+        D.append(("nested-namespace", [("raw", "namespace a@ { namespace b { const int t[] = {1, 2, 3, 4}; } }")], [], [], "a@::b::t", False, 4))
+        D.append(("static-member-no-bound", [("raw", "struct N@ { static const int list[]; };", "struct N@ { static const int list[]; }; const int N@::list[4] = {1, 2, 3, 4};")],
+                  [], [], "N@::list", False, 4))
+        D.append(("static-member-no-bound-defined-after-use", [("raw", "struct N@ { static const int list[]; };")], [("raw", "const int N@::list[4] = {1, 2, 3, 4};")],
+                  [], "N@::list", False, 4))
+        D.append(("static-member-bound", [("raw", "struct N@ { static int list[4]; };"), ("raw", "int N@::list[4] = {1, 2, 3, 4};")], [], [], "N@::list", False, 4))
+        D.append(("member-dot-cpp", [("raw", "struct S@ { int n; int m[4]; };")], [], [("raw", "S@ s = {0, {1, 2, 3, 4}};")], "s.m", True, 4))
+        D.append(("member-arrow-cpp", [("raw", "struct S@ { int n; int m[4]; };")], [], [("raw", "S@ s = {0, {1, 2, 3, 4}};"), ("raw", "S@ *p = &s;")], "p->m", True, 4))
+        D.append(("std-array-data", [], [], [("raw", "int r[4] = {1, 2, 3, 4};"), ("raw", "int (&q)[4] = r;")], "q", True, 4))
+        D.append(("new-array", [], [], [("raw", "int *p = new int[4];"), ("raw", "p[0] = 1; p[1] = 2; p[2] = 3; p[3] = 4;")], "p", "delete[]", 4))
+    return D
+
+
+def fam_arrdecl(tier, lang="c"):
+    """in-bounds accesses (constant, parameter, loop, guarded) through every declaration / naming form: executions are
+    sanitizer-clean by construction, so any error-severity index finding here is refuted"""
+    for tag, pre, post, loc, name, wr, n in arr_decls(lang):
+        dom = {"a": list(range(0, n))}
+        acc = lambda i: ("[]", name, i)
+        rel = [("raw", "free(p);")] if wr == "free" else ([("raw", "delete[] p;")] if wr == "delete[]" else [])
+        ret = lambda e: [("decl", "si", "y", e)] + rel + [("ret", Y)]
+        mk = lambda body, **kw: fn(loc + body, pre=pre, post=post, shape=tag, **kw)
+        for k in (0, n - 1):
+            yield mk(ret(acc(N(k))))
+            if wr:
+                yield mk([("e", ASG(acc(N(k)), Bp))] + ret(acc(N(0))))
+        yield mk(ret(acc(A)), domains=dom)
+        yield mk(ret(acc(B("-", A, N(1)))), domains={"a": list(range(1, n + 1))})
+        yield mk(ret(B("+", acc(A), acc(B("-", N(n - 1), A)))), domains=dom)
+        if wr:
+            yield mk([("e", ASG(acc(A), Bp))] + ret(acc(N(n - 1))), domains=dom)
+        yield mk([("decl", "si", "x", N(0)), ("for", ("decl", "si", "i", N(0)), B("<", V("i"), N(n)), ("post", "++", V("i")), [("e", ASG(X, acc(V("i")), "+="))])] + ret(X))
+        yield mk([("decl", "si", "x", N(0)), ("for", ("decl", "si", "i", N(n - 1)), B(">=", V("i"), N(0)), ("post", "--", V("i")), [("e", ASG(X, acc(V("i")), "+="))])] + ret(X))
+        yield mk([("decl", "si", "x", N(0)), ("if", B("&&", B(">=", A, N(0)), B("<", A, N(n))), [("e", ASG(X, acc(A)))], None)] + ret(X), domains={"a": [-2, -1, 0, 1, n - 1, n, n + 1]})
+        yield mk([("decl", "si", "x", N(0)), ("if", B("||", B("<", A, N(0)), B(">=", A, N(n))), rel + [("ret", N(0))], None), ("e", ASG(X, acc(A)))] + ret(X),
+                 domains={"a": [-2, -1, 0, 1, n - 1, n, n + 1]})
+        yield mk([("decl", "si", "i", N(n - 1)), ("if", B("==", A, N(0)), [("e", ASG(V("i"), N(0)))], None)] + ret(acc(V("i"))), domains={"a": [0, 1]})
+        if tier != "quick":
+            for k in range(1, n - 1):
+                yield mk(ret(acc(N(k))))
+            yield mk(ret(acc(B("&", A, N(n - 1)))))
+            yield mk(ret(acc(B("%", ("c", "ui", A), N(n)))))
+            yield mk([("decl", "si", "i", N(0)), ("while", B("<", V("i"), N(n - 1)), [("e", ("post", "++", V("i")))])] + ret(acc(V("i"))))
+    # array parameters
+    if lang == "c":
+        for ptype in ("si[]", "si[4]", "int *"):
+            h = ("func", dict(name="h@", ret="si", params=[(ptype, "v"), ("si", "i")], vars={"v": "arr"}, body=[("ret", ("[]", "v", V("i")))]))
+            yield fn([("raw", "int r[4] = {1, 2, 3, 4};"), ("ret", ("call", "h@", (("raw", "r", "ptr"), A), "int"))], pre=[h], domains={"a": [0, 1, 2, 3]}, shape="array-parameter")
+            yield fn([("raw", "int r[4] = {1, 2, 3, 4};"), ("ret", ("call", "h@", (("raw", "r", "ptr"), N(3)), "int"))], pre=[h], shape="array-parameter")
+            h2 = ("func", dict(name="h@", ret="si", params=[(ptype, "v")], vars={"v": "arr"}, body=[("ret", B("+", ("[]", "v", N(0)), ("[]", "v", N(3))))]))
+            yield fn([("raw", "int r[4] = {1, 2, 3, 4};"), ("ret", ("call", "h@", (("raw", "r", "ptr"),), "int"))], pre=[h2], shape="array-parameter")
+
+
 def fam_null(tier):
     pz = ("declptr", "si", "p", N(0))
     px = ("declptr", "si", "p", ("&", X))
@@ -236,8 +322,10 @@ def fam_g4(tier, lang="c"):
                     yield dict(name="f@", ret=T.strip(), retcls="ptr", params=[], body=body, pre=list(pre), g4=tags + ["return " + ret], kind=kind)
 
 
-FAMILIES = [("arith", fam_arith, "c"), ("index", fam_index, "c"), ("null", fam_null, "c"), ("uninit", fam_uninit, "c"),
-            ("g4-c", lambda t: fam_g4(t, "c"), "c"), ("g4-cpp", lambda t: fam_g4(t, "cpp"), "cpp")]
+# (arith, the largest family, is enumerated last: a deadline cuts its tail only)
+FAMILIES = [("index", fam_index, "c"), ("arrdecl-c", lambda t: fam_arrdecl(t, "c"), "c"),
+            ("arrdecl-cpp", lambda t: fam_arrdecl(t, "cpp"), "cpp"), ("null", fam_null, "c"), ("uninit", fam_uninit, "c"),
+            ("g4-c", lambda t: fam_g4(t, "c"), "c"), ("g4-cpp", lambda t: fam_g4(t, "cpp"), "cpp"), ("arith", fam_arith, "c")]
 
 
 # ---- oracle -----------------------------------------------------------------------------------------------------------------
@@ -245,6 +333,7 @@ def judge(b, r, fam, samples=None):
     cnt = collections.Counter()
     viols = []
     g4 = fam.startswith("g4")
+    c01 = None
     runs = r.res.get("runs") if isinstance(r.res, dict) else None
     for f in r.findings:
         fid = f["id"]
@@ -305,6 +394,17 @@ def judge(b, r, fam, samples=None):
             elif g4 and h is not None:
                 o = h
                 hit = b.values(r, h.id)
+        if o is None and fid in ("arrayIndexOutOfBounds", "negativeIndex", "ctuArrayIndex", "arrayIndexOutOfBoundsCond"):
+            # located at a token of a qualified / member name: take the (single) subscript expression of that line
+            subs = [x for x in r.occs if x.line == line and x.node is not None and x.node[0] == "[]" and x.kind in ("rv", "lv")]
+            if len(subs) == 1:
+                o = subs[0]
+                if o.kind == "rv":
+                    hit = b.values(r, o.id)
+                elif h is not None and P.unconditional(r, o):
+                    hit = b.values(r, h.id)
+                else:
+                    o = None
         if o is None:
             cnt["skipped_location_not_mapped:" + fid] += 1
             continue
@@ -340,6 +440,18 @@ def judge(b, r, fam, samples=None):
             v = mk(f, r, line, col, why, {"vec": b.vector(r, hit[0][2]), "value": hit[0][0]})
             v["definite"] = definite
             v["role"] = list(o.role) if getattr(o, "role", None) else None
+            # does the finding rest on a Known operand value that this very execution refutes (a C01 value-flow defect)?
+            if definite and o.kind != "stmt":
+                if c01 is None:
+                    c01 = {}
+                    for x in P.judge_facts(b, r)[0]:
+                        c01.setdefault(x["occ"].id, x)
+                for x in rel + [r.occs[i] for i in sub[1:]]:
+                    if x.id in c01:
+                        w = dict(c01[x.id])
+                        v["operand_defect"] = G1.classify(G1.site_info(b, r, w))
+                        v["operand"] = {"expr": x.text, "cppcheck_says": P.describe(w["kind"], w["n"], w.get("sym")), "observed": w["observed"]}
+                        break
             v["op"] = o.node[1] if (o.node is not None and o.node[0] in ("b", "u")) else None
             viols.append(v)
     return viols, cnt
@@ -410,6 +522,10 @@ UNSIGNED = ("uc", "us", "ui", "ul", "b")
 
 def classify(v):
     """Class key of a refuted finding; listed classes (known_findings.json) come with an explanation check."""
+    od = v.get("operand_defect")
+    if od and not od.startswith("unclassified"):
+        # the error finding is the consequence of a wrong Known value already recorded as a C01 class
+        return "finding-rests-on-wrong-known-operand-value:" + od
     if v["id"] == "integerOverflow" and v.get("definite") and v.get("role") and v["role"][0] == "init" and v["role"][1] in UNSIGNED:
         return "integerOverflow-on-initialiser-converted-to-unsigned-destination"
     if v["id"] == "shiftTooManyBitsSigned" and v.get("op") == ">>":
@@ -461,7 +577,7 @@ def main(tier, replay_=None):
                 continue
             cur = []
             for f in gen(tier):
-                key = sha([f["params"], f["body"], f["pre"], f.get("domains"), lang])
+                key = sha([f["params"], f["body"], f["pre"], f.get("post"), f.get("domains"), lang])
                 if key in seen:
                     totals["duplicates_removed"] += 1
                     continue
